@@ -154,8 +154,9 @@ def gen_literal(rng, refs):
 
 
 def generate(rng, seed, size):
-    target = {"small": 16, "base": 72, "large": 120, "robust": 40}[size]
-    robust = size == "robust"
+    target = {"small": 16, "base": 72, "large": 120, "robust": 40, "minimal": 24}[size]
+    robust = size in ("robust", "minimal")
+    minimal = size == "minimal"
     ROBUST[0] = robust
     out = []
     out.append("// @generated by /verif/gen/gen_corpus.py --seed %d (engine c17, size %s). Do not edit.\n" % (seed, size))
@@ -168,7 +169,7 @@ def generate(rng, seed, size):
         prefix = rng.choice(PREFIXES)
         nvar = rng.randint(1, 7)
         # serialize_all: only together with identifiers whose word splitting is unambiguous (casing.py)
-        style = rng.choice(casing.STYLES) if rng.random() < 0.3 else None
+        style = rng.choice(casing.STYLES) if (rng.random() < 0.3 and not minimal) else None
         # systematic part: the first enums cover every serialize_all style, each with a variant named by its
         # (non-ASCII) identifier alone
         forced_style = (not robust) and ei < len(casing.STYLES)
